@@ -208,8 +208,18 @@ func yield() {
 	}
 }
 
+// EvalPoints makes every expression evaluation (vrt.Point("eval") at the top of query.Evaluate) a scheduling
+// point: two accesses to a buffer shared by mistake between workers then have a point between them. Off by
+// default (C13 does not need it: the race detector sees such accesses wherever the switches are).
+var EvalPoints bool
+
 //go:norace
-func (impl) Point(kind string) { yield() }
+func (impl) Point(kind string) {
+	if kind == "eval" && !EvalPoints {
+		return
+	}
+	yield()
+}
 
 //go:norace
 func (impl) Spawn(fn func()) {
